@@ -92,12 +92,18 @@ func sliceUniqMap(s [][]byte) [][]byte {
 func Recover(suite suites.Suite, public *share.PubPoly, msg []byte, sigs [][]byte, t, n int) ([]byte, error) {
 	pubShares := make([]*share.PubShare, 0)
 	sigs = sliceUniqMap(sigs)
+	// one share per member: the same share may arrive under several byte
+	// encodings (trailing bytes), which sliceUniqMap cannot see
+	seen := make(map[int]struct{})
 	for _, sig := range sigs {
 		s := SigShare(sig)
 		i, err := s.Index()
 
 		if err != nil {
 			// too short to carry an index: skipped like any other invalid share
+			continue
+		}
+		if _, dup := seen[i]; dup {
 			continue
 		}
 		if err = bls.Verify(suite, public.Eval(i).V, msg, s.Value()); err != nil {
@@ -107,6 +113,7 @@ func Recover(suite suites.Suite, public *share.PubPoly, msg []byte, sigs [][]byt
 		if err := point.UnmarshalBinary(s.Value()); err != nil {
 			return nil, err
 		}
+		seen[i] = struct{}{}
 		pubShares = append(pubShares, &share.PubShare{I: i, V: point})
 		if len(pubShares) >= t {
 			break
